@@ -157,6 +157,7 @@ where
     /// * `error` - The error that occurred during processing
     /// * `event` - The wrapper Nostr event that caused the error
     /// * `group` - The group metadata from storage
+    /// * `is_commit` - Whether the MLS message is a commit (only commits may trigger a rollback)
     ///
     /// # Returns
     ///
@@ -167,6 +168,7 @@ where
         error: Error,
         event: &Event,
         group: &group_types::Group,
+        is_commit: bool,
     ) -> Result<MessageProcessingResult> {
         match error {
             Error::CannotDecryptOwnMessage => {
@@ -296,7 +298,8 @@ where
             }
             Error::ProcessMessageWrongEpoch(msg_epoch) => {
                 // Check if this commit is "better" than what we have for this epoch
-                let is_better = self.epoch_snapshots.is_better_candidate(
+                // (only commits qualify; other stale handshake messages are refused below)
+                let is_better = is_commit && self.epoch_snapshots.is_better_candidate(
                     self.storage(),
                     &group.mls_group_id,
                     msg_epoch,
